@@ -417,6 +417,17 @@ impl Scenario for C13 {
         let mut acts = vec![];
         for _ in 0..n {
             match rng.below(12) {
+                0 if rng.chance(1, 25) => {
+                    // a large coupon SET (tables of 2^14 .. 2^15 slots) from a foreign writer, then the
+                    // same items offered again: a reader that probes the table differently from the
+                    // writer does not find them and stores them twice
+                    let lg_k = rng.range(17, 21) as u8;
+                    let nc = rng.range(6_200, (3 * (1u64 << (lg_k - 3)) / 4).min(24_000)) as usize;
+                    let coupons: Vec<u32> = (0..nc).map(|_| ((1 + rng.geometric(40)) << 26) | (rng.next_u32() & 0x3ff_ffff)).collect();
+                    let mut more: Vec<u32> = (0..400).map(|_| *rng.pick(&coupons)).collect();
+                    more.extend(gen_coupons(rng, lg_k, 20));
+                    acts.push(Act::Hll { lg_k, ty: rng.below(3) as u8, mode: 1, layout: rng.below(2) as u8, ooo: false, coupons, more });
+                }
                 0..=3 => {
                     let lg_k = match rng.below(10) {
                         0 => 4,
